@@ -34,6 +34,21 @@ def one_case(spec, opts, fault, ftype="exception", pre_runs=0):
     out = []
     a = runner.prepare(spec, opts)
     b = runner.prepare(spec, opts)
+    if opts.get("via_json"):
+        # the project under test is a copy that went through write_simple_json / read_simple_json (its first run is the backward one)
+        import os
+        import tempfile
+        from pDESy.model.base_project import BaseProject
+
+        fd, path = tempfile.mkstemp(prefix="verif-c17-", suffix=".json")
+        os.close(fd)
+        try:
+            a.project.write_simple_json(path)
+            p2 = BaseProject()
+            p2.read_simple_json(path)
+            a = S.adopt(p2)
+        finally:
+            os.unlink(path)
     before = structure(a)
     for _ in range(pre_runs):
         # earlier, undisturbed backward runs on the same object (the examined run must behave like a first one)
@@ -168,6 +183,14 @@ def items(tier):
         sp = F.with_teams(fl, "POOL2")
         for dflag, rev in itertools.product((False, True), repeat=2):
             out.append((sp, {"rule": "TSLACK", "due": dflag, "rev": rev, "absence": [], "max_time": F.seq_bound(sp) + 12}))
+    for hold in ("FF", "SF"):
+        for wv in ((2, 1, 4, 1), (1, 2, 3, 2)):
+            fl = {"tasks": [{"name": F.tname(i), "work": float(w)} for i, w in enumerate(wv)], "links": [[0, 1, "FS"], [1, 2, hold], [0, 3, "SS"]]}
+            sp = F.with_teams(fl, "DED")
+            for rev in (True, False):
+                out.append((sp, {"rule": "TSLACK", "due": False, "rev": rev, "absence": [], "max_time": F.seq_bound(sp) + 12}))
+    for sp, o in list(out)[:: (29 if tier == "quick" else 7)]:
+        out.append((sp, dict(o, via_json=True)))
     for sp in F.same_name_task_specs():
         for rev in (True, False):
             out.append((sp, {"rule": "TSLACK", "due": False, "rev": rev, "absence": [], "max_time": 20}))
